@@ -780,6 +780,38 @@ func Gen(run *vlib.Run, seed uint64, tier string) {
 		}
 	}
 
+	// exhaustive small domain: two language systems, two features, every
+	// combination of required index, optional list, switch values, lookup count
+	nex := 0
+	for _, req := range []int{0xFFFF, 0, 1, 2} {
+		for _, opt := range [][]int{nil, {0}, {1}, {0, 1}, {1, 0, 1}, {2}} {
+			for sw := 0; sw < 9; sw++ {
+				for _, nl := range []int{0, 1, 2, 3} {
+					c := flCase{Lang: "zu", NLookups: nl,
+						SL: []slEntryT{{Tag: "fr", F: featsT{Req: 1, Opt: []int{0}}}, {Tag: "de", F: featsT{Req: req, Opt: opt}}},
+						FL: []featureT{{Tag: "liga", Lookups: []int{1, 0}}, {Tag: "kern", Lookups: []int{2, 1, 2}}},
+						SW: swT{M: map[string]bool{}}}
+					switch sw % 3 {
+					case 1:
+						c.SW.M["liga"] = true
+					case 2:
+						c.SW.M["liga"] = false
+					}
+					switch sw / 3 {
+					case 1:
+						c.SW.M["kern"] = true
+					case 2:
+						c.SW.M["kern"] = false
+					}
+					c.Rev1, c.Rev2 = nex%2 == 0, nex%3 == 0
+					addFL(run, c, 3)
+					nex++
+				}
+			}
+		}
+	}
+	run.Extra["fl_exhaustive_small"] = nex
+
 	rk := r.Fork("kern")
 	for i, n := 0, vlib.Count(tier, 3000, 100000); i < n; i++ {
 		b, src := genKernBytes(rk, rk.Range(1, 6))
@@ -794,6 +826,25 @@ func Gen(run *vlib.Run, seed uint64, tier string) {
 		// Encode iterates over a map; the records are sorted afterwards
 		addKern(run, info.Encode(), "kern-src:encode-large")
 	}
+
+	// adversarial (C02): subtables of length 14 that each announce 65535
+	// pairs; reading must stay linear in the size of the table
+	for _, n := range []int{28100, 30000} {
+		b := []byte{0, 0, byte(n >> 8), byte(n)}
+		for i := 0; i < n; i++ {
+			b = append(b, 0, 0, 0, 14, 0, 1, 0xFF, 0xFF, 0, 0, 0, 0, 0, 0)
+		}
+		addKern(run, b, "kern-src:overlapping-adversarial")
+	}
+
+	// exhaustive: every coverage byte on the second of two subtables
+	for f := 0; f < 256; f++ {
+		b := []byte{0, 0, 0, 2,
+			0, 0, 0, 26, 0, 1, 0, 2, 0, 0, 0, 0, 0, 0, 0, 1, 0, 2, 0, 10, 0, 3, 0, 4, 0xFF, 0xF9,
+			0, 0, 0, 26, 0, byte(f), 0, 2, 0, 0, 0, 0, 0, 0, 0, 1, 0, 2, 0, 5, 0, 5, 0, 6, 0, 9}
+		addKern(run, b, "kern-src:all-flags")
+	}
+	run.Extra["kern_exhaustive_flags"] = 256
 
 	rs := r.Fork("stdlig")
 	for i, n := 0, vlib.Count(tier, 400, 8000); i < n; i++ {
